@@ -585,7 +585,7 @@ fn run(toks: &[&str]) -> String {
     run_case(owned, p2);
     let _ = tx.send(());
   });
-  match rx.recv_timeout(Duration::from_millis(4000)) {
+  match rx.recv_timeout(Duration::from_millis(30000)) {
     Ok(()) => partial.lock().unwrap().join(" ; "),
     Err(mpsc::RecvTimeoutError::Timeout) => {
       let mut v = partial.lock().unwrap().clone();
